@@ -9,6 +9,7 @@ Inductive query :=
 | QOtherFaceSide (c f : nat) | QCommonFace (c1 c2 : nat)
 | QVertexToCell (v : nat) | QInCellIndex (c v : nat) | QInCellFaceIndex (c f : nat)
 | QEdge (e : nat)                       (* edge_to_cell(e), edge_to_face(e) : answered as a pair *)
+| QEdgeV (u v : nat)                    (* the same for e = edge_id(u, v) *)
 | QCellToEdge (c : nat)
 | QFaceId (a b c : nat) | QEdgeId (u v : nat)
 | QIsFaceBorder (f : nat) | QIsFaceBorderV (a b c : nat) | QIsVertexBorder (v : nat)
@@ -78,6 +79,18 @@ Section Check.
   Definition c2c_ans (c : nat) : ans :=
     match t_c2c T with Ok t => AList (C2C t c) | _ => AErr end.
 
+  Definition check_edge (raises : bool) (e : nat) (a : ans) : bool :=
+        if raises then ans_eqb a AErr
+        else match a with
+             | APair cs fs =>
+                 if sorted
+                 then existsb (fun s => ring_is (sorted_edge cells faces edges (t_f2c T)
+                                                            (nth e (t_e2c T) []) (nth e (t_e2f T) []) e s) cs fs)
+                              (nth e (t_e2c T) [])
+                 else seteq cs (nth e (t_e2c T) []) && leqb fs (nth e (t_e2f T) [])
+             | _ => false
+             end.
+
   Definition check_query (raises : bool) (q : query) (a : ans) : bool :=
     match q with
     | QFaceToCells f => ans_eqb a (AList (F2C (t_f2c T) f))
@@ -89,17 +102,8 @@ Section Check.
     | QVertexToCell v => match a with AList l => seteq l (V2C cells v) | _ => false end
     | QInCellIndex c v => ans_eqb a (opt_ans (in_cell_index cells c v))
     | QInCellFaceIndex c f => ans_eqb a (opt_ans (in_cell_face_index cells faces c f))
-    | QEdge e =>
-        if raises then ans_eqb a AErr
-        else match a with
-             | APair cs fs =>
-                 if sorted
-                 then existsb (fun s => ring_is (sorted_edge cells faces edges (t_f2c T)
-                                                            (nth e (t_e2c T) []) (nth e (t_e2f T) []) e s) cs fs)
-                              (nth e (t_e2c T) [])
-                 else seteq cs (nth e (t_e2c T) []) && leqb fs (nth e (t_e2f T) [])
-             | _ => false
-             end
+    | QEdge e => check_edge raises e a
+    | QEdgeV u v => match edge_id edges u v with Some e => check_edge raises e a | None => ans_eqb a AErr end
     | QCellToEdge c => if raises then ans_eqb a AErr else ans_eqb a (AList (C2E cells edges c))
     | QFaceId x y z => ans_eqb a (opt_ans (face_id faces [x; y; z]))
     | QEdgeId u v => if raises then ans_eqb a AErr else ans_eqb a (opt_ans (edge_id edges u v))
